@@ -8,7 +8,7 @@ VARIABLES l
 vars == <<l>>
 Init == l = 1
 IsEv(e) == l <= Len(Trace) /\ Trace[l].ev = e /\ l' = l + 1
-Next == IsEv("reset") \/ IsEv("hb") \/ (l = Len(Trace) + 1 /\ UNCHANGED l)
+Next == IsEv("crash") \/ IsEv("reset") \/ IsEv("hb") \/ (l = Len(Trace) + 1 /\ UNCHANGED l)
 TraceSpec == Init /\ [][Next]_vars
 Has == l > 1
 Ev == Trace[l - 1]
@@ -16,7 +16,8 @@ IsH == Has /\ Ev.ev = "hb"
 Exp == HB!SpecSlice(Ev.pat, Ev.off, Ev.w)
 Cond_C02_Reader == IsH => (Ev.nextErr = Exp.err /\ (~Exp.err => Ev.next = Exp.v))
 Cond_C02_Builder == IsH => (Ev.sliceErr = Exp.err /\ (~Exp.err => Ev.slice = Exp.v))
-Cond_NoPanic == IsH => ~Ev.panic
+NoCrash == ~(l > 1 /\ Trace[l - 1].ev = "crash")   \* the code under test took the whole harness process down (driver: mark_crash)
+Cond_NoPanic == NoCrash /\ (IsH => ~Ev.panic)
 Chk(nm, c) == c \/ PrintT(<<"VIOL", nm, l - 1>>)
 Inv_NoPanic == Chk("Inv_NoPanic", Cond_NoPanic)
 Inv_C02_HashReader == Chk("Inv_C02_HashReader", Cond_C02_Reader)
